@@ -60,6 +60,19 @@ def plain_hits(t, q):
     return [i for i in range(len(t) - len(q) + 1) if t[i:i + len(q)] == q] if q and t else []
 
 
+def as_collection(rng, items):
+    """the listed subsequences as a list, a tuple, or a one-shot iterable (a generator expression, a map - what
+    digest() itself returns): the same peptides whatever they arrive in"""
+    r = rng.random()
+    if r < 0.5:
+        return list(items)
+    if r < 0.65:
+        return tuple(items)
+    if r < 0.85:
+        return (x for x in items)
+    return map(str, items)
+
+
 def model_hits(T: Pep, Q: Pep):
     out = []
     m = len(Q.seq)
@@ -213,7 +226,16 @@ def random_cases(ctx, st, pt):
             A_ = M('+1', mono=1.0, avg=1.0, kind='int')
             B_ = M(rng.choice(['+2', 'Methyl']), mono=2.0, avg=2.0, kind='int')
             T.res[sib] = [A_, M(A_.text, 1, 1.0, 1.0, kind='int'), B_]
+        pair = None
+        if sib is None and rng.random() < 0.06:
+            # one residue carries two shifts whose Python hashes collide (hash(-1) == hash(-2)); the query spells them in
+            # the other order - the modifications of a residue are a multiset, so the stretch still matches
+            pair = rng.randrange(a, b)
+            u, v = rng.choice([('-1', '-2'), ('-1.0', '-2'), ('-2', '-1'), ('1', '1.0000000001')])
+            T.res[pair] = [M(u, mono=float(u), avg=float(u), kind='int'), M(v, mono=float(v), avg=float(v), kind='int')]
         Q = rp.slice_pep(T, a, b)
+        if pair is not None:
+            Q.res[pair - a] = list(reversed(Q.res[pair - a]))
         perturbed = False
         if sib is not None and rng.random() < 0.7:
             x = Q.res[sib - a]
@@ -239,14 +261,14 @@ def random_cases(ctx, st, pt):
                 hits = [model_hits(T, Q), model_hits(T, Q2)] if not ign else \
                     [plain_hits(T.seq, Q.seq), plain_hits(T.seq, Q2.seq)]
                 for acc in (False, True):
-                    got = observe(st, pt, 'coverage', t_text, [q_text, q2_text], acc, ign)
+                    got = observe(st, pt, 'coverage', t_text, as_collection(rng, [q_text, q2_text]), acc, ign)
                     ctx.decided()
                     expc = cov_model(n, hits, [len(Q.seq), len(Q2.seq)], acc)
                     if not got or got[0] != 'ok' or list(got[1]) != expc:
                         ctx.violation('coverage-differs', {'target': t_text, 'queries': [q_text, q2_text],
                                                            'accumulate': acc, 'ignore_mods': ign, 'expected': expc,
                                                            'observed': got})
-                got = observe(st, pt, 'percent_coverage', t_text, [q_text, q2_text], ign)
+                got = observe(st, pt, 'percent_coverage', t_text, as_collection(rng, [q_text, q2_text]), ign)
                 ctx.decided()
                 expc = cov_model(n, hits, [len(Q.seq), len(Q2.seq)], False)
                 if not got or got[0] != 'ok' or abs(got[1] - sum(expc) / n) > 1e-12 or not (0 <= got[1] <= 1):
